@@ -3,7 +3,63 @@
 import json, os, subprocess
 ROOT = os.path.dirname(os.path.dirname(os.path.abspath(__file__)))
 
+CORR = ("the hand-written Coq model is executed (extracted OCaml + vm_compute sample) on the same generated programs as the real "
+        "library and every projected observable is diffed; an independent exact-rational oracle judges the implementation's own outputs")
+
 CLAIMED = {
+ "C08": dict(
+    category="other",
+    text="Canonical-form invariant WF: proved preserved by round/setExpAndRound/Add/Sub/Mul/Quo/Set/SetPrec/Neg/Abs (the C01/C04 "
+         "theorems all conclude WF of the receiver); the program-level theorem over all modelled operations and the Gob decoder "
+         "is not closed yet, so the property is decided by the correspondence run: " + CORR + ", and the canonical-form predicate is "
+         "evaluated on the implementation's raw mantissa words after every step of random programs (incl. corrupted Gob input).",
+    design_ref="DESIGN.md section 6 C08",
+    note="Partial proof (per-operation WF conclusions in Props/C01.v, C04.v) + exploration by random programs; no closed program-level theorem.",
+    technique="Coq per-operation invariant lemmas + model/code correspondence on random programs"),
+ "C11": dict(
+    category="proof",
+    text="Coq theorems in Props/C11.v over the L4 text models (digit string of the mantissa, round trip for the formats listed "
+         "there); remaining formats are decided by correspondence: " + CORR + " (parse-back equality and exact MinPrec digit count).",
+    design_ref="DESIGN.md section 6 C11",
+    note="See Props/C11.v for the closed theorems and the list of statements that are correspondence-only.",
+    technique="Coq proof on text-codec model + model/code correspondence with round-trip oracle"),
+ "C12": dict(
+    category="proof",
+    text="Coq theorems in Props/C12.v: totality of the parser model (no crash, no Decimal on error, all byte strings, all bases) "
+         "and the theorems listed there; base-10 exactness and acceptance are additionally decided by correspondence: " + CORR +
+         " and math/big's Float.Parse as acceptance oracle.",
+    design_ref="DESIGN.md section 6 C12",
+    note="Known finding K7 (binary-exponent literals go through a rounded 2**n). See Props/C12.v for what is closed.",
+    technique="Coq proof of parser totality/exactness on the model + correspondence with big.Float.Parse and exact-rational oracles"),
+ "C13": dict(
+    category="proof",
+    text="Coq theorems in Props/C13.v on the formatting model (layout lemmas listed there); digits/layout against strconv/fmt are "
+         "decided by correspondence: " + CORR + " plus strconv.FormatFloat/fmt.Sprintf on exactly representable values.",
+    design_ref="DESIGN.md section 6 C13",
+    note="Known findings K5 (%+v) and K6 (rounding for output past MaxExp). See Props/C13.v for what is closed.",
+    technique="Coq proof of layout lemmas on the model + correspondence with strconv/fmt oracles"),
+ "C14": dict(
+    category="other",
+    text="Integer/rational getters and setters: executable Coq model (L3/Convert.v) with no closed conversion theorem yet; decided by "
+         "correspondence: " + CORR + " (truncation toward zero, saturation, accuracy, documented precisions, NewDecimal saturation).",
+    design_ref="DESIGN.md section 6 C14",
+    note="Model + correspondence + independent oracle; theorems pending (Props/C14.v holds kernel-evaluated examples only).",
+    technique="Coq executable model + model/code correspondence with exact-rational oracle"),
+ "C17": dict(
+    category="other",
+    text="Gob codec: byte-level executable Coq model (L4/Gob.v) with no closed theorem yet; decided by correspondence: " + CORR +
+         " (byte-identical encodings, exact attribute round trip, rounding into non-zero precision receivers, error-or-canonical "
+         "and receiver-untouched-on-error for every single-byte mutation, truncation and random byte strings).",
+    design_ref="DESIGN.md section 6 C17",
+    note="Model + correspondence + independent oracle; theorems pending.",
+    technique="Coq executable byte-level model + model/code correspondence over corrupted streams"),
+ "C20": dict(
+    category="other",
+    text="SetBitsExp/BitsExp/MantExp/SetMantExp: executable Coq model (L3/Convert.v) with no closed theorem yet; decided by "
+         "correspondence: " + CORR + " (value 0.mant x 10^exp over the whole int64 exponent range, inverse law, range saturation).",
+    design_ref="DESIGN.md section 6 C20",
+    note="Model + correspondence + independent oracle; theorems pending.",
+    technique="Coq executable model + model/code correspondence with exact-rational oracle"),
  "C04": dict(
     category="proof",
     text="Coq theorems (Props/C04.v, closed under the global context): for ALL operands, the model of Add/Sub/Mul/Quo raises "
